@@ -42,3 +42,10 @@ native_unit("verifier_side_native", "winterfell", "winterfell", "native/verifier
             "acceptance policy: a proof is accepted under MinConjecturedSecurity / MinProvenSecurity(m) exactly when its own level of that kind is >= m (m around the level, 0, u32::MAX) and under OptionSet(s) exactly when s contains its options (six single-parameter variants, both orders, empty set); on an AIR with periodic columns of four different cycle lengths (2, 8, 4, trace length), single / periodic / sequence assertions with non-zero first steps and a periodic and a sequence assertion sharing one boundary-constraint group: the verifier's evaluation of the composition at the out-of-domain point agrees with the prover's committed polynomial (every honest proof is accepted after a serialization round trip), and every boundary constraint is enforced (a proof is refused when any single asserted value of the public inputs is changed); a proof whose context claims any other field modulus (lengths 0..254 bytes, the real modulus truncated or zero-extended, one flipped bit) is refused with an error - no panic, no acceptance",
             "NATIVE EXECUTION, not a proof: one AIR (4 columns, 4 constraints, 7 assertions) x trace lengths 16, 64, 128 x LDE blowup 8, 16 x f128, f128 quadratic, f64, f64 quadratic, f64 cubic; built without debug assertions (the prover's debug-only degree validation refuses periodic trace columns), with overflow checks",
             timeout=2400, debug_assertions=False)
+
+
+native_unit("coeff_native", "winterfell", "winterfell", "native/coeff_bounded.rs", ["C04"],
+            ["Air::get_constraint_composition_coefficients", "Air::get_deep_composition_coefficients"],
+            "coefficient number i of the documented order is the i-th element a second coin with the same state yields (every coefficient a fresh, successive draw), and afterwards both coins are in the same state",
+            "NATIVE EXECUTION, not a proof: trace lengths 8 .. 1024 x 5 sets of main constraint degrees (1 .. 8 composition columns) x 1, 2, 4 main assertions x single-segment and 4 multi-segment shapes (with and without a Lagrange kernel column) x no / quadratic / cubic extension of the 64-bit field x Blake3_256 and Rp64_256",
+            timeout=900)
